@@ -29,7 +29,7 @@ func init() {
 		Assumptions: []string{"go/parser, go/format and go/types are the Go oracles; the binary is built from /repo/cmd/plenctag by bin/check and passed in VERIF_PLENCTAG"},
 		Work:        c20Work,
 		Post: func(a *mc.Agg) []string {
-			return needDims(a, "shape:single", "shape:multi", "shape:embedded", "shape:unexported", "shape:blank", "tag:none", "tag:plenc", "tag:malformed", "ctx:generic", "ctx:local", "flags:16", "second-run")
+			return needDims(a, "shape:single", "shape:multi", "shape:embedded", "shape:unexported", "shape:blank", "tag:none", "tag:plenc", "tag:malformed", "ctx:generic", "ctx:local", "flags:16", "second-run", "presentation:loose")
 		},
 	})
 }
@@ -139,6 +139,19 @@ func c20Work(c *mc.Ctx) {
 		src := c20File(ctx, srcs)
 		for _, fl := range flags {
 			c20One(c, bin, dir, ctx, fs, src, fl)
+		}
+		// the same file loosely formatted (spaces for tabs, blank lines, trailing padding): gofmt
+		// makes it SHORTER than the input, which matters for the in-place (-w) output path
+		if len(fs) == 1 {
+			loose := strings.ReplaceAll(src, "\t", "        ")
+			loose = strings.ReplaceAll(loose, "\n}", "\n\n\n}")
+			loose += "\n\n\n// trailing padding " + strings.Repeat("x", 120) + "\n\n\n"
+			for _, fl := range flags {
+				if fl.w {
+					c.Dim("presentation:loose")
+					c20One(c, bin, dir, ctx, fs, loose, fl)
+				}
+			}
 		}
 	}
 	for _, f := range fields {
